@@ -257,7 +257,7 @@ def summarise(I, n, it, st):
                 extra = rec[3:]
                 nb = ((ivar, count),) + tuple(binders)
                 nrec = (nb, tuple(rm(i_) for i_ in sidx), rm(val)) + tuple(extra)
-                nrec = _flatten_chunk(nrec, n, it, trial, summary)
+                nrec = _flatten_chunk(nrec, n, it, trial, summary, total=(ov.shape[0] if len(ov.shape) == 1 else None))
                 ov.stores.append(nrec)
         elif isinstance(cv, DictVal):
             for k, v in cv.d.items():
@@ -385,7 +385,52 @@ def Fr_half():
     return Fraction(1, 2)
 
 
-def _flatten_chunk(rec, n, it, trial, summary):
+def _flatten_blocks(rec, total, summary):
+    """blocks given by an arbitrary (lo, hi) sequence: for c in range(n): a[S*c : min(S*c + S, K)] = v  -> one binder over [0, K) when the
+    blocks tile [0, K); a definite Mismatch when a count K is exhibited for which they do not (trailing elements never stored)."""
+    binders, sidx, val = rec[0], rec[1], rec[2]
+    if len(binders) != 2 or len(sidx) != 1 or len(rec) > 3 or total is None: return rec
+    (iv, icount), (tv, tcount) = binders
+    try:
+        lo = sidx[0] - X.var(tv)
+        if tv in lo.fv(): return rec
+        lo0 = lo.subst({iv: X.const(0)}); S = lo.subst({iv: X.const(1)}) - lo0
+        if not lo0.iszero() or iv in S.fv() or not (S * X.var(iv)).eq(lo): return rec
+        want = lm.canon_minmax('min', [lo + S, total])
+        if not (tcount + lo).eq(want): return rec
+        end = lm.canon_minmax('min', [icount * S, total])
+    except Unknown:
+        return rec
+    J = fresh("J")
+    if not end.eq(total):
+        # do the blocks reach the end?  look for a concrete count for which they do not
+        from .symalg import NumEnv, evalx
+        for kval in (1, 2, 3, 5, 7, 10, 11, 13, 100, 101, 1000, 1001, 32769, 65537, 100003):
+            env = NumEnv(1)
+            for nm in (total.fv() | end.fv()): env.fixed[nm] = float(kval)
+            try:
+                a, b = evalx(end, env).real, evalx(total, env).real
+            except Exception:
+                continue
+            if abs(a - b) > 1e-9:
+                return (((J, total),), (X.var(J),), Mismatch(f"the blocks [{lo!r}, {want!r}) for {iv} < {icount!r} cover only {a:.0f} of {b:.0f} elements (e.g. for a count of {kval}): "
+                                                              "the trailing elements are never stored and uninitialised memory enters the result"))
+        return rec
+    v2 = subst_val(val, {tv: X.var(J) - lo})
+    if iv in lm_fv(v2):
+        if not _aggregates_over(v2, iv): return rec
+        return (((J, total),), (X.var(J),), Mismatch("the value stored for a segment depends on the block it is processed in"))
+    summary.setdefault("chunked", []).append(J)
+    return (((J, total),), (X.var(J),), v2)
+
+
+def _flatten_chunk(rec, n, it, trial, summary, total=None):
+    if not isinstance(it, lm.RangeVal):
+        return _flatten_blocks(rec, total, summary)
+    return _flatten_chunk_range(rec, n, it, trial, summary)
+
+
+def _flatten_chunk_range(rec, n, it, trial, summary):
     """chunk idiom: for j0 in range(0, K, c): j1 = min(j0+c, K); p[j0:j1] = A
     -> a single binder J over [0, K) when the stored value depends on (j0 + t) only."""
     binders, sidx, val = rec[0], rec[1], rec[2]
